@@ -13,6 +13,7 @@ CHECKS['C13'] = {
     'level_note': 'schedule coverage is sampled, not exhaustive; a race-detector report counts as a violation (the property names race freedom)',
     'units': [
         unit('plain', 'arvados', '^TestVerifC13Concurrent$', {'shards': 10, 'checks': 120}, {'shards': 12, 'checks': 5000, 'timeout': 3000}, timeout_is_violation=True, crash_is_violation=True),
+        unit('regress', 'arvados', '^TestVerifC13Regress', {'shards': 1, 'timeout': 300}, {'shards': 1, 'timeout': 300}, rapid=False),
         unit('race', 'arvados', '^TestVerifC13Concurrent$', {'shards': 4, 'checks': 40}, {'shards': 4, 'checks': 2000, 'timeout': 3000}, race=True, timeout_is_violation=True, crash_is_violation=True),
     ],
 }
